@@ -67,12 +67,58 @@ def plain_regex(pattern, flags=0):
     return p
 
 
+_langs = []     # (regex AST, predicate symbol)
+
+
+def lang_pred(eng, ast_):
+    """an uninterpreted predicate 'the string is in L' per regular LANGUAGE (not per regex text): two constant regexes
+    with the same language share the predicate - language equality is decided by the derivative-product procedure.
+    For a language that differs from an already registered one a distinguishing string is recorded as a replay hint."""
+    U = universe()
+    for a, sym in _langs:
+        ok1, cex1, _ = R.included(a, ast_, U, limit=50000)
+        ok2, cex2, _ = R.included(ast_, a, U, limit=50000) if ok1 else (False, None, 0)
+        if ok1 and ok2:
+            return sym
+        cex = cex1 if not ok1 else cex2
+        if cex is not None:
+            eng.hints.setdefault("distinguishing_strings", [])
+            w = "".join(chr(c) for c in cex)
+            if w not in eng.hints["distinguishing_strings"]:
+                eng.hints["distinguishing_strings"].append(w)
+    sym = z3.Function(f"in_lang_{len(_langs)}", StrS, BoolS)
+    _langs.append((ast_, sym))
+    return sym
+
+
 def const_fullmatch(eng, path, pattern, text, flags):
-    return simplify_bool(z3.InRe(str_term(text), to_z3(plain_regex(pattern, flags))))
+    if isinstance(text, str):
+        import re
+        return re.fullmatch(pattern, text, int(flags)) is not None
+    return lang_pred(eng, plain_regex(pattern, flags))(str_term(text))
 
 
 def const_match(eng, path, pattern, text, flags):
-    return simplify_bool(z3.InRe(str_term(text), z3.Concat(to_z3(plain_regex(pattern, flags)), z3.Full(z3.ReSort(StrS)))))
+    """re.match(const, text) is not None.  Decided structurally on the concrete leading characters of the text by
+    derivatives of the constant regex; the solver's regex theory is only asked when a symbolic piece is reached while
+    the residual language is neither empty nor universal."""
+    U = universe()
+    allU = R.star(R.cs(U))
+    r = R.cat(plain_regex(pattern, flags), allU)
+    pieces = [text] if isinstance(text, str) else list(text.pieces)
+    for pi, p in enumerate(pieces):
+        if isinstance(p, str):
+            for ch in p:
+                r = R.deriv(r, ord(ch))
+                if r == R.NONE:
+                    return False
+        else:
+            ok, _, _ = R.included(allU, r, U, limit=20000)
+            if ok:
+                return True
+            rest = mkstr(*pieces[pi:])
+            return simplify_bool(z3.InRe(str_term(rest), to_z3(r)))
+    return R.nullable(r)
 
 
 def const_sub(eng, path, pattern, repl, text, count, flags):
